@@ -63,6 +63,8 @@ def explore(req, early, depth, stops=False, with_signal=False, max_runs=200000):
         if not acts or len(prefix) >= depth or stopped or run.hang:
             if acts and not stopped and not run.hang and not stops:
                 run.drain()      # past the depth bound: finish the run deterministically (first enabled action)
+            if stopped:
+                run.after_stop()
             o = run.finish()
             out.append({"sched": [list(a) for a in prefix], "payloads": run.payloads, "ended": run.ended and not run.closed,
                         "plain": run.initial_is_plain, "obs": o})
